@@ -368,9 +368,12 @@ package kafka
 //@   loop 0 invariant w.writers != nil && (forall kid ref :: inmap(w.writers, kid) ==> mapat(w.writers, kid) != nil && mapat(w.writers, kid).w == w) && w.batchSize() <= 0x7fffffff
 //@   loop 0 invariant !w.Async ==> batches != nil
 
+//@ property C08 C07 C01 C10 C09
+// C09: a caller blocked in WriteMessages waiting for its batches returns when its context ends
 //@ func (*Writer).WriteMessages
 //@   option noframe
 //@   modifies heap
+//@   cancellable ctx.Done()
 //@   unproved index@"werr[i] = batch.err" the index lists returned by batchMessages hold positions of msgs; that map-content invariant is not carried through the result map
 //@   loop 0 invariant -1 <= rangeindex && batchBytes == w.batchBytes()
 //@   loop 0 invariant forall k :: 0 <= k && k <= rangeindex ==> 0 <= int64(msgs[k].totalSize()) && int64(msgs[k].totalSize()) <= batchBytes
@@ -379,6 +382,7 @@ package kafka
 //@   assume a batch's err is final once its done channel is closed (complete() sets err before close(done)); the wait loop reads it only after receiving from done
 //@   loop 2 invariant forall b *writeBatch :: visited(b) && b.err != nil ==> hasErrors
 //@   loop 2 after forall b *writeBatch :: haskey(batches, b) && b.err != nil ==> hasErrors
+//@ property C08 C07 C01 C10
 
 //@ property C15 C10
 
@@ -577,6 +581,38 @@ package kafka
 //@   modifies heap
 //@   ensures cg.$left
 //@   loop 0 invariant cg.$left == (len(memberID) == 0)
+
+//@ property C09
+
+// A caller blocked in a forced metadata refresh of the Transport returns promptly when its context ends: every channel
+// wait of the refresh loop also waits on the context's Done channel.
+//@ func (*connPool).refreshMetadata
+//@   option noframe
+//@   option only cancellable
+//@   modifies heap
+//@   cancellable ctx.Done()
+// the same for the other waits of a Transport round trip (pool not ready yet, connection being dialled, response pending)
+// and for a synchronous CommitMessages waiting for the commit loop
+//@ func (*connPool).roundTrip
+//@   option noframe
+//@   option only cancellable
+//@   modifies heap
+//@   cancellable ctx.Done()
+//@ func (async).await
+//@   option noframe
+//@   option only cancellable
+//@   modifies heap
+//@   cancellable ctx.Done()
+//@ func (*connGroup).grabConnOrConnect
+//@   option noframe
+//@   option only cancellable
+//@   modifies heap
+//@   cancellable ctx.Done()
+//@ func (*Reader).CommitMessages
+//@   option noframe
+//@   option only cancellable
+//@   modifies heap
+//@   cancellable ctx.Done()
 
 //@ property C01
 
@@ -1253,13 +1289,17 @@ package kafka
 //@   modifies r.version, r.cancel
 //@   ensures old(r.closed) ==> r.version == old(r.version)
 //@   ensures !old(r.closed) ==> r.version == old(r.version) + 1
+//@ property C02 C09
+// C09: a caller blocked in FetchMessage returns when its context ends
 //@ func (*Reader).FetchMessage
 //@   option noframe
 //@   modifies heap
+//@   cancellable ctx.Done()
 //@   assume ctx.Err() is non-nil once ctx.Done() is closed (context package contract)
 //@   callsite iface Context.Err ensures result != nil
 //@   ensures m.error == nil && result1 == nil ==> r.offset == result0.Offset + 1 && r.lag == m.watermark - r.offset
 //@   loop 0 invariant true
+//@ property C02
 
 //@ property C04 C05
 
